@@ -197,8 +197,57 @@ def oracle_mlp(case):
             "counts": {"clipped_groups": clipped, "zeroed_groups": zeroed, "kept_groups": kept}}
 
 
+@st.composite
+def large_prox_case(draw):
+    return {"d": draw(st.integers(1025, 2600)), "h": draw(st.integers(1, 40)), "K": draw(st.integers(1, 6)),
+            "seed": draw(st.integers(0, 2 ** 31 - 1)), "alpha": draw(st.sampled_from([0.0, 0.3, 1.0, 3.0])),
+            "M": draw(st.sampled_from([0.0, 0.1, 1.0, 10.0])), "grouped": draw(st.booleans()), "which": draw(st.sampled_from(["linear", "hier"]))}
+
+
+def oracle_large_prox(case):
+    """the same operators on thousands of features (blocked / vectorised code paths): row-wise comparison with the reference"""
+    rs = np.random.RandomState(case["seed"])
+    d, h, K = case["d"], case["h"], case["K"]
+    alpha, M = case["alpha"], case["M"]
+    groups = None
+    if case["grouped"]:
+        perm = rs.permutation(d)
+        cuts = np.sort(rs.choice(np.arange(1, d), size=min(d - 1, rs.randint(1, 400)), replace=False))
+        groups = [list(map(int, g)) for g in np.split(perm, cuts)]
+    gl = [[i] for i in range(d)] if groups is None else groups
+    if case["which"] == "linear":
+        W = rs.randn(d, h) * rs.choice([0.1, 1.0, 3.0], size=(d, 1))
+        W[rs.rand(d) < 0.05] = 0.0
+        with np.errstate(all="ignore"):
+            out = P.linear_prox_grad(W.copy(), alpha) if groups is None else P.group_linear_prox_grad(groups, W.copy(), alpha)
+        for g in gl:
+            ref = prox_ref.group_lasso_prox(W[g], alpha)
+            if out[g].shape != ref.shape or not np.allclose(out[g], ref, rtol=0, atol=1e-9 * 10):
+                raise Violation(f"group-lasso prox on a {d}x{h} matrix (groups: {groups is not None}): feature(s) {g[:6]} give "
+                                f"{out[g].ravel()[:4].tolist()}, reference {ref.ravel()[:4].tolist()} (alpha={alpha})")
+        kept = int(np.sum(np.any(out != 0, axis=1)))
+        return {"nontrivial": 0 < kept < d, "classes": ["linear:" + ("groups" if groups else "rows")]}
+    V = rs.randn(d, K) * rs.choice([0.1, 1.0, 3.0], size=(d, 1))
+    U = rs.randn(d, h)
+    if alpha == 0:
+        alpha = 0.3
+    with np.errstate(all="ignore"):
+        B, T = P.mlp_prox_grad(V.copy(), U.copy(), alpha, M) if groups is None else P.group_mlp_prox_grad(groups, V.copy(), U.copy(), alpha, M)
+    idx = rs.choice(len(gl), size=min(len(gl), 120), replace=False).tolist() + [len(gl) - 1, 0]
+    for gi in idx:
+        g = gl[gi]
+        rb, rt, _, _ = prox_ref.hier_prox(V[g], U[g], alpha, M)
+        if not (np.allclose(B[g], rb, rtol=0, atol=1e-6) and np.allclose(T[g], rt, rtol=0, atol=1e-6)):
+            raise Violation(f"hierarchical prox on {d} features (groups: {groups is not None}): feature(s) {g[:6]} differ from the "
+                            f"reference minimiser (alpha={alpha}, M={M})")
+    if not (np.all(np.isfinite(B)) and np.all(np.isfinite(T))):
+        raise Violation(f"hierarchical prox on {d} features returned non-finite values")
+    return {"nontrivial": True, "classes": ["hier:" + ("groups" if groups else "rows")]}
+
+
 def subs():
     return [
+        Sub("large_matrices", large_prox_case(), oracle_large_prox, 40, 600, "1025-2600 features"),
         Sub("linear_rows", lin_case(False), oracle_linear, 3000, 150000, "row-wise group lasso"),
         Sub("linear_groups", lin_case(True), oracle_linear, 2000, 100000, "group lasso over feature groups"),
         Sub("hier_rows", mlp_case(False), oracle_mlp, 3000, 150000, "HIER-PROX per feature"),
